@@ -25,7 +25,7 @@ for d in sorted(os.listdir(S)):
     rows.append((d, (m.get('summary') or '')[:140].replace('|', '/').replace('\n', ' '), (m.get('needs_to_manifest') or '')[:140].replace('|', '/').replace('\n', ' '),
                  f'{last_own}' + (f' (first run: {first_own})' if first_own and first_own != last_own else ''), ' '.join(others), (own_res[-1][3] if own_res else '')[:110]))
 with open(S + '/RESULTS.md', 'w') as f:
-    f.write("# Seeded changes vs. the quick checks\n\nWritten by independent sub-agents from the text of one property only (round 1: `<id>-A/B`; round 2, told what round 1 had produced: `<id>-r2A/B`). Each directory holds `patch.diff`, `demo.sh` (exit 0 on HEAD, non-zero with the patch) and `meta.json` (what it needs to manifest, how it was confirmed, every run against the checks). Confirmation: `tools/seed_import.sh`; runs: `tools/mutant.sh` (logs `run_*.log`).\n\n")
+    f.write("# Seeded changes vs. the quick checks\n\nWritten by independent sub-agents from the text of one property only (round 1: `<id>-A/B`; later rounds, each told what the earlier ones had produced: `<id>-r2A/B`, `-r3A/B`, `-r4A/B`, `-r5A/B`). Each directory holds `patch.diff`, `demo.sh` (exit 0 on HEAD, non-zero with the patch) and `meta.json` (what it needs to manifest, how it was confirmed, every run against the checks). Confirmation: `tools/seed_import.sh`; runs: `tools/mutant.sh` (logs `run_*.log`).\n\n")
     f.write("| id | change | needs | own property's quick check | other checks | signatures |\n|---|---|---|---|---|---|\n")
     for r in rows:
         f.write('| ' + ' | '.join(r) + ' |\n')
